@@ -127,12 +127,15 @@ class QueryPlanner:
         #   main purpose: make tests working (don't change planner outputs)
         # can be removed in future (with adapting the tests) except 'cut integration part' block
 
-        # a table alias that is spelled like the integration: 'alias.column' is not 'integration.table'
+        # a table alias, or the name of an un-aliased table or CTE, that is spelled like the integration:
+        #   'name.column' is not 'integration.table'
         aliases = set()
 
         def _find_aliases(node, is_table, **kwargs):
             if is_table and getattr(node, 'alias', None) is not None:
                 aliases.add(node.alias.parts[-1].lower())
+            elif is_table and isinstance(node, Identifier) and isinstance(node.parts[-1], str):
+                aliases.add(node.parts[-1].lower())
 
         query_traversal(query, _find_aliases)
 
